@@ -432,3 +432,88 @@ def units_C05(tier, seed):
             U += unit(f'c05_stack_{i1}{LAYNAME[l1]}_{i2}{LAYNAME[l2]}_{n}', H, f'stack_h<{i1},{l1},{i2},{l2},{n},{VEC["f2"]},2>()',
                       extra=ex, sites=[1, 2, 3], diff=(l1 == 0 and n == 2), weight=40)
     return U
+
+
+# ------------------------------------------------------------------------------------------------ C06 / C07 / C08
+IO_STACKS = [0, 1, 2, 3, 4, 5, 6, 7, 8, 9, 10, 11, 12]
+IO_LAYERS = [20, 21, 22, 23, 24, 25, 26, 27]
+IO_DESC = ('catalogue: array<float3>, array<double1>, constant (2), identity, strided<size3,array<float3>>, '
+           'affine<linear<strided<size2,array<float2>>>>, clamp<morton<size2,array<double2>>>, '
+           'backup<shuffle<strided<size2,array<float1>>>>, hilbert<size2,array<float1>>, covariant_cast<double,strided<...>>, '
+           'dereference<strided<...>>, nearest_neighbour<strided<...>>; per-layer stacks clamp/backup/affine/shuffle/cast/linear/nearest '
+           'over a token-emitting probe backend')
+INFO['C06'] = {
+    'bounds': IO_DESC + '; every configuration value and stored scalar a symbolic bit pattern (NaN payloads, signed zeros, subnormals, '
+              'infinities); array length 0..2 quick / 0..3 thorough: load(dump(f)) bit-identical at every layer and index, reader consumes '
+              'exactly the written bytes, dump(load(dump(f))) == dump(f) byte for byte',
+    'outside': 'arrays longer than the bound; stacks outside the catalogue (covered compositionally by the per-layer probe stacks)',
+    'cuts': 'stream model (engine/models.py: istream::read / ostream::write on engine-owned streams); error-message formatting cut',
+    'assumptions': [],
+}
+INFO['C07'] = {
+    'bounds': 'same state space as C06: dump(f) == reference serialiser written from the pinned byte grammar (harness/vf_state.hpp), '
+              'byte for byte, and files produced by the reference serialiser load to the same state; cross-type loads between stacks '
+              'differing in interpolator (none/nearest/linear) and float<->double storage: widening exact, narrowing equals the cast and '
+              '(thorough) satisfies the independent nearest-neighbour oracle incl. ties-to-even, subnormals, largest finite',
+    'outside': 'NaN/inf and out-of-range values under narrowing (excluded by the property); golden files are not committed as binaries: '
+               'the reference serialiser is the pinned grammar in executable form',
+    'cuts': 'as C06', 'assumptions': [],
+}
+INFO['C08'] = {
+    'bounds': 'for every dump of the C06 state space: (1) every proper prefix (symbolic length t < |D|, every byte offset), '
+              '(2) every header/footer/tag/width word replaced by any other 32-bit value, (3) ordered pairs of incompatible stacks, '
+              '(4) a stream that fails from the n-th read on for every n below the number of reads: an exception is raised; no normal '
+              'return, abort, memory VC failure, decision on uninitialised data or loop-bound hit; rel and dbg flavours',
+    'outside': 'streams that throw from read() themselves (exceptions mask set); allocation failure',
+    'cuts': 'as C06; bytes a short read does not deliver stay uninitialised in the destination (undef-tagged)',
+    'assumptions': ['width word of an EMPTY array switched to the other legal width is a valid file (C07), not an altered-word violation'],
+}
+
+
+def units_C06(tier, seed):
+    th = tier == 'thorough'
+    b = 3 if th else 2
+    U = []
+    for k in IO_STACKS + IO_LAYERS:
+        fl = ('rel', 'dbg') if k in (3, 4, 20, 8) or th else ('rel',)
+        U += unit(f'c06_roundtrip_{k}', 'c06_io.cpp', f'roundtrip_h<{k},{b}>()', sites=[1, 2, 3, 4, 5, 6], flavours=fl,
+                  diff=(k in (0, 3, 4, 5, 6, 21)), weight=10 if k < 20 else 1)
+    return U
+
+
+def units_C07(tier, seed):
+    th = tier == 'thorough'
+    b = 3 if th else 2
+    U = []
+    for k in IO_STACKS + IO_LAYERS:
+        U += unit(f'c06_roundtrip_{k}', 'c06_io.cpp', f'roundtrip_h<{k},{b}>()', sites=[1, 2, 3, 4, 5, 6], diff=(k in (3, 5)),
+                  weight=10 if k < 20 else 1)
+    pairs = [(10, 30), (30, 10), (10, 31), (10, 32), (33, 10), (33, 32), (32, 33), (4, 34), (3, 35), (31, 10), (32, 10), (35, 3), (34, 4), (0, 13), (13, 0)]
+    for a, bb in pairs:
+        narrowing = (a, bb) in ((31, 10), (32, 10), (35, 3), (34, 4), (32, 33), (13, 0))
+        U += unit(f'c07_cross_{a}_{bb}', 'c06_io.cpp', f'cross_h<{a},{bb},{b if not narrowing else 2},false>()', sites=[1, 3, 4], diff=True, weight=5)
+        if narrowing and (th or (a, bb) == (32, 10)):
+            U += unit(f'c07_cross_nearest_{a}_{bb}', 'c06_io.cpp', f'cross_h<{a},{bb},1,true>()', sites=[1, 2, 3, 4], weight=300,
+                      cfg={'query_timeout_ms': 600000}, timeout=2400)
+    return U
+
+
+def units_C08(tier, seed):
+    th = tier == 'thorough'
+    b = 3 if th else 2
+    U = []
+    for k in IO_STACKS + IO_LAYERS:
+        if k in (2,) :
+            pass
+        fl = ('rel', 'dbg') if (k in (3, 4, 5, 20, 1) or th) else ('rel',)
+        U += unit(f'c08_trunc_{k}', 'c06_io.cpp', f'trunc_h<{k},{b}>()', sites=[1], flavours=fl, diff=(k in (3, 21)), weight=20,
+                  cfg={'max_paths': 20000}, timeout=1800)
+        U += unit(f'c08_word_{k}', 'c06_io.cpp', f'word_h<{k},{b if th else 1}>()', sites=[1], flavours=fl, diff=(k in (3,)), weight=20,
+                  cfg={'max_paths': 20000}, timeout=1800)
+        if k in (0, 3, 4, 5, 6, 12, 20, 21, 22) or th:
+            U += unit(f'c08_failat_{k}', 'c06_io.cpp', f'failat_h<{k},{b if th else 1}>()', sites=[1], flavours=fl, diff=(k == 3), weight=20,
+                      cfg={'max_paths': 20000}, timeout=1800)
+    for a, bb in ((3, 40), (40, 3), (3, 41), (41, 3), (3, 42), (42, 3), (0, 1), (1, 0), (2, 1), (3, 4), (4, 5), (5, 3), (7, 33), (33, 7), (6, 20), (10, 0), (0, 3)):
+        U += unit(f'c08_pair_{a}_{bb}', 'c06_io.cpp', f'pair_h<{a},{bb},1>()', sites=[1], flavours=('rel', 'dbg') if a == 3 else ('rel',),
+                  diff=(a == 3 and bb == 40))
+    return U
